@@ -156,6 +156,10 @@ def oracle(case, imp):
     #     every call ends in one of: reply, OSError of its own attempt, Cancelled, StreamTerminatedError;
     #     anything else is an internal error
     allowed = ('p', 'x:OSError', 'x:Cancelled', 'x:StreamTerminated')
+    # a call whose (non-OK) response had already arrived ends with that status when it is terminated
+    replied = {st[1] for b in case['batches'] for st in b if st[0] == 'trailers'}
+    final = [('x:StreamTerminated' if (c.startswith('x:GRPCError:') and k in replied) else c)
+             for k, c in enumerate(final)]
     for k, c in enumerate(final):
         if not (c in allowed or c.startswith('ok:')) and not any(h[0] == k and h[2] for h in imp['handed']) \
                 and k not in imp['was_unregistered']:
@@ -333,6 +337,41 @@ def gen_after_goaway(rng):
     return case
 
 
+def gen_blocked_sender(rng):
+    """oracle-only family: client-streaming calls whose sender is blocked on the exhausted flow-control window
+    (silent peer: no WINDOW_UPDATE), some of which have ALREADY received their complete response (trailers-only,
+    END_STREAM, no RST_STREAM), next to unary calls waiting for a reply; then the connection ends in each way
+    (Channel.close(), connection_lost, GOAWAY of any kind, keepalive close with connection_lost delivered or
+    withheld followed by close()).  Every such call must be finished by the teardown."""
+    ka = rng.random() < 0.4
+    kinds = [rng.choice(['startstream', 'startstream', 'start']) for _ in range(rng.choice([1, 2, 3]))]
+    if 'startstream' not in kinds:
+        kinds[0] = 'startstream'
+    batches = [[[k] for k in kinds], [R[:]]]
+    ncallers = len(kinds)
+    streams = [i for i, k in enumerate(kinds) if k == 'startstream']
+    early = [i for i in streams if rng.random() < 0.7] or [streams[0]]
+    if rng.random() < 0.5:
+        batches.append([['trailers', i] for i in early])
+    else:
+        batches += [[['trailers', i]] for i in early]
+    end = rng.choice(['close', 'lose', 'goaway', 'kaclose', 'hold-kaclose-close'] if ka else
+                     ['close', 'close', 'lose', 'goaway'])
+    if end == 'close':
+        batches.append([['close']])
+    elif end == 'lose':
+        batches.append([['lose', 0]])
+    elif end == 'goaway':
+        batches.append([gen_goaway(rng, 0)])
+    elif end == 'kaclose':
+        batches.append([['kaclose']])
+    else:
+        batches += [[['hold', 0]], [['kaclose']], [['close']]]
+    case = {'script': [], 'ka': ka, 'nomodel_stream': True, 'batches': batches}
+    add_epilogue(case, ncallers)
+    return case
+
+
 def gen_close_window(rng):
     """directed family: registered calls in flight on a connection whose transport withholds (or merely
     delays) connection_lost; the connection is closed from one side (keepalive Connection.close(), GOAWAY,
@@ -447,13 +486,14 @@ def check_cases(ctx, res, cases):
                                       'impl': 'harness could not drive the case: %s: %s | %s' % (
                                           type(e).__name__, str(e)[:120], traceback.format_exc()[-300:])})
     cases = kept
-    modelled = [i for i, c in enumerate(cases) if not c.get('timed')]
+    modelled = [i for i, c in enumerate(cases) if not c.get('timed') and not c.get('nomodel_stream')]
     model = None
     if ctx.model_ok and modelled:
         model = dict(zip(modelled, ctx.model([model_line(imps[i]['case']) for i in modelled])))
     for i, (case, imp) in enumerate(zip(cases, imps)):
         res.evaluations += 1
-        fam = 'timed' if case.get('timed') else ('keepalive' if case.get('ka') else 'plain')
+        fam = 'timed' if case.get('timed') else 'blocked-sender' if case.get('nomodel_stream') else \
+            ('keepalive' if case.get('ka') else 'plain')
         res.count('family:' + fam)
         for b in case['batches']:
             res.count('batch-size:%d' % min(len(b), 4))
@@ -494,7 +534,9 @@ RULE = ('command-driven schedules on the real Channel: 1-6 initial callers (one 
         'sometimes out of range; GOAWAY is a class (error code x last_stream_id {0, highest seen, 2**31-1} x debug '
         'data) with a directed family of calls started after it; a directed family {keepalive close | GOAWAY | close} -> Channel.close() with '
         'connection_lost withheld or delayed and registered calls in flight; epilogue: resolve all, deliver withheld '
-        'connection_lost, Channel.close(), fresh calls; plus a timed oracle-only '
+        'connection_lost, Channel.close(), fresh calls; an oracle-only family of client-streaming calls blocked in '
+        'send_message() on the exhausted window, some with their trailers-only response already received, '
+        'followed by each way of ending the connection; plus a timed oracle-only '
         'family (asyncio.sleep attempts, quarter-second instants). distinct = distinct sequences of observation '
         'vectors (creates, in flight, _protocol, lock, waiters, _state, per-connection flags, per-call outcome)')
 
@@ -510,6 +552,8 @@ def run(ctx):
         cases.append(gen_close_window(rng))
     for _ in range(ctx.n(400, 6000)):
         cases.append(gen_after_goaway(rng))
+    for _ in range(ctx.n(120, 2000)):
+        cases.append(gen_blocked_sender(rng))
     for _ in range(ctx.n(300, 5000)):
         cases.append(gen_timed(rng))
     check_cases(ctx, res, cases)
